@@ -18,6 +18,8 @@ C13 basis ansi start num  -> ok n:m,…            modes of make_zernike_basis(n
 C13 normsq n m            -> ok q                (n+1)·(2 if m≠0)
 C13 radial n m r          -> ok q                zernike_radial (repaired)
 C13 radialold n m r       -> ok q | nan          unrepaired recurrence (n-|m| even, |m| ≤ n)
+C13 abasis ansi start num cut cache D  -> ok n:m=[q…]|…   `basisA` (make_zernike_basis with a grid, array-level cache model) on the
+                                                 stored polar / separated grid: one column per mode, with the mode it is
 C13 pairs nmax            -> ok n:m,…            `pairs nmax`: the valid (n, m ≥ 0) with n ≤ nmax (the range of `radial_table`)
 C13 poly n m              -> ok [q…]             `radialPoly n |m|`: coefficients (of r^0, r^1, …) the q-recursion produces
 C13 defpoly n m           -> ok [q…]             `radialDef n |m|`: coefficients of the factorial definition
@@ -177,6 +179,21 @@ def step (st : St) : List String → St × String
     | some n, some m, some r =>
       if !valid n m then (st, "err value") else (st, "ok " ++ showRat (radialEval n m.natAbs r))
     | _, _, _ => (st, "bad-op")
+  | ["abasis", ansi, start, num, cut, cache, D] =>
+    match parseBool? ansi, parseNat? start, parseNat? num, parseBool? cut, parseBool? cache, parseRat? D with
+    | some ansi, some start, some num, some cut, some cache, some D =>
+      if D = 0 || (!ansi && start = 0) then (st, "err value") else
+      let g? : Option AGrid := match st.pts with
+        | .polar p => some (.pts (p.map (·.1)) (p.map fun t => (t.2.1, t.2.2)))
+        | .sep R d => some (.sep R d)
+        | .cart _ => none
+      match g? with
+      | some g =>
+        let cols := basisA ansi start num D g cut cache
+        let modes := basisModes ansi start num
+        (st, "ok " ++ "|".intercalate ((modes.zip cols).map fun (nm, z) => showPair nm ++ "=" ++ showRatList z))
+      | none => (st, "bad-op")
+    | _, _, _, _, _, _ => (st, "bad-op")
   | ["pairs", nmax] =>
     match parseNat? nmax with
     | some nmax => (st, "ok " ++ ",".intercalate ((pairs nmax).map fun (n, m) => s!"{n}:{m}"))
